@@ -38,16 +38,20 @@ func runC20(c *core.Ctx) {
 	t := c.T
 	ci := []time.Duration{50 * time.Millisecond, 200 * time.Millisecond}[t.Choose(2, "ci")]
 	withOption := !t.Bias(1, 10, "nooption")
-	holdBack := t.Choose(4, "holdback") // 0 none, 1 only host-host valid on B, 2 random subset, 3 none but late
+	holdBack := t.Choose(5, "holdback") // 0 none, 1 only host-host valid on B, 2 random subset, 3 none but late, 4 everything at first
 	faulty := t.Bias(1, 2, "faulty")
 	nRenom := t.Range(1, 4, "nrenom")
+	// with a keepalive as frequent as the checks, answers to the controlled side's own requests on the
+	// previously selected pair are still in flight when a renomination moves the selection
+	ka := []time.Duration{time.Second, ci}[t.Choose(2, "keepalive")]
+	c.Knob("keepalive", ka.String())
 	c.Knob("withOption", withOption)
 	c.Knob("holdBack", holdBack)
 	c.Knob("faulty", faulty)
 	c.Knob("nRenom", nRenom)
 	opts := func(renom bool) []ice.AgentOption {
 		o := []ice.AgentOption{
-			ice.WithCheckInterval(ci), ice.WithKeepaliveInterval(time.Second),
+			ice.WithCheckInterval(ci), ice.WithKeepaliveInterval(ka),
 			ice.WithDisconnectedTimeout(10 * time.Second), ice.WithFailedTimeout(30 * time.Second),
 			ice.WithMaxBindingRequests(200),
 			ice.WithSrflxAcceptanceMinWait(0), ice.WithPrflxAcceptanceMinWait(0),
@@ -71,7 +75,17 @@ func runC20(c *core.Ctx) {
 		}
 	}
 	led := rig.NewLedger(d)
+	// In a third of the runs A's server-reflexive candidate is trickled late: B first learns that address as a
+	// peer-reflexive candidate from A's checks, and the signalled candidate replaces it in the middle of the
+	// renominations (possibly while a nomination of such a pair is waiting for the pair to become valid).
+	var lateCand ice.Candidate
+	lateTrickle := t.Bias(1, 3, "late-trickle")
+	c.Knob("lateTrickle", lateTrickle)
 	for _, cand := range d.A.LocalCands() {
+		if lateTrickle && cand.Type() == ice.CandidateTypeServerReflexive && lateCand == nil {
+			lateCand = cand
+			continue
+		}
 		_ = d.Signal(d.A, d.B, cand)
 	}
 	for _, cand := range d.B.LocalCands() {
@@ -107,7 +121,13 @@ func runC20(c *core.Ctx) {
 		}
 		allowed[[2]netip.Addr{bIPs[t.Choose(2, "b")], aIPs[t.Choose(2, "a")]}] = true
 	}
-	holding := holdBack == 1 || holdBack == 2
+	holding := holdBack == 1 || holdBack == 2 || holdBack == 4
+	// mode 4: B validates nothing at first, so the ordinary nomination reaches it before the pair is valid
+	// there; after a few steps its checks go through
+	releaseAt := -1
+	if holdBack == 4 {
+		releaseAt = t.Range(2, 12, "releaseat")
+	}
 	bSocks := func() map[int]bool { return hostSockIDs(d.W, d.HB) }
 	filterB := func() {
 		if !holding {
@@ -129,6 +149,7 @@ func runC20(c *core.Ctx) {
 	// per-delivery bookkeeping of nominations at B
 	var noms []*c20Nom
 	byTx := map[[stun.TransactionIDSize]byte]*c20Nom{}
+	byValue := map[uint32]*c20Nom{}
 	var maxDeliveredAtB uint32
 	bSnapBefore := func() rig.Snap { return rig.TakeSnap(d.B) }
 	var preB rig.Snap
@@ -141,6 +162,13 @@ func runC20(c *core.Ctx) {
 		m := rig.Decode(dg.Payload)
 		if !m.IsSTUN {
 			return
+		}
+		if to.Host() == d.HB && m.Class == stun.ClassRequest && m.Nomination != nil && byTx[m.TxID] == nil {
+			// a repetition of a renomination (same value, new transaction)
+			if n := byValue[*m.Nomination]; n != nil {
+				byTx[m.TxID] = n
+				c.Probe("renomination-repeated-on-the-wire")
+			}
 		}
 		if n := byTx[m.TxID]; n != nil {
 			if to.Host() == d.HB && m.Class == stun.ClassRequest {
@@ -171,9 +199,17 @@ func runC20(c *core.Ctx) {
 
 	// nomination requests and their responses are reordered and duplicated but never lost: pion sends each
 	// renomination once, so a lost one can never be "the latest that wins"
+	// In "lossy" runs the nomination requests and their responses are lost like anything else (a nomination
+	// is repeated until it is answered, so the highest one issued still wins once the faults have stopped);
+	// otherwise they are only reordered and duplicated.
+	lossy := t.Bias(1, 2, "lose-nominations")
+	c.Knob("loseNominations", lossy)
 	d.S.CanDrop = func(dg *simnet.Datagram) bool {
+		if lossy {
+			return true
+		}
 		m := rig.Decode(dg.Payload)
-		return !(m.IsSTUN && byTx[m.TxID] != nil)
+		return !(m.IsSTUN && (byTx[m.TxID] != nil || m.Nomination != nil))
 	}
 	o := &c20Oracle{c: c, d: d, led: led, noms: &noms}
 	step := func(fair bool) {
@@ -196,6 +232,9 @@ func runC20(c *core.Ctx) {
 		return d.A.LastState() == ice.ConnectionStateConnected && d.B.LastState() == ice.ConnectionStateConnected
 	}
 	for i := 0; i < 600 && !connected() && !c.Failed(); i++ {
+		if i == releaseAt {
+			holding = false
+		}
 		step(true)
 	}
 	if !connected() {
@@ -271,6 +310,7 @@ func runC20(c *core.Ctx) {
 				}
 				noms = append(noms, n)
 				byTx[m.TxID] = n
+				byValue[n.value] = n
 			}
 		}
 		if !found && !c.Failed() {
@@ -279,11 +319,26 @@ func runC20(c *core.Ctx) {
 		c.Logf("renominate #%d %s", want, p.Key())
 		c.Fault("renominate")
 	}
+	trickleAt := -1
+	if lateCand != nil {
+		trickleAt = c.T.Choose(nRenom, "trickle-after")
+	}
 	for r := 0; r < nRenom && !c.Failed(); r++ {
 		issue()
 		n := c.T.Range(0, 25, "between")
-		for i := 0; i < n && !c.Failed(); i++ {
-			step(false)
+		at := -1
+		if r == trickleAt {
+			at = c.T.Range(0, n, "trickle-step")
+		}
+		for i := 0; i <= n && !c.Failed(); i++ {
+			if i == at {
+				_ = d.Signal(d.A, d.B, lateCand)
+				lateCand = nil
+				c.Fault("late-trickled-candidate-replaces-prflx")
+			}
+			if i < n {
+				step(false)
+			}
 		}
 		if holdBack == 2 && c.T.Bias(1, 2, "releasehold") {
 			holding = false
@@ -294,6 +349,9 @@ func runC20(c *core.Ctx) {
 	}
 	// 3. fair, loss-free suffix: everything still in flight is delivered, B's validation is no longer held back
 	holding = false
+	if lateCand != nil {
+		_ = d.Signal(d.A, d.B, lateCand)
+	}
 	for i := 0; i < 400 && !c.Failed(); i++ {
 		step(true)
 		if c.Now() > 0 && i > 200 && len(d.S.Eligible()) == 0 {
@@ -384,6 +442,18 @@ func (o *c20Oracle) final() {
 		if n.reqDeliv && n.respDeliv && (top == nil || n.value > top.value) {
 			top = n
 		}
+	}
+	if last := noms[len(noms)-1]; top != last {
+		// "the highest nomination value the controlling agent issued": it is repeated until answered, so after
+		// the loss-free suffix its request and its response have been delivered
+		c.Failf("C20/highest-nomination-never-completed", "renomination %d (the highest issued) was never completed although the faults stopped: request delivered=%v response delivered=%v; highest completed: %v",
+			last.value, last.reqDeliv, last.respDeliv, func() any {
+				if top == nil {
+					return "none"
+				}
+				return top.value
+			}())
+		return
 	}
 	la, ra, oka := d.A.SelectedPair()
 	lb, rb, okb := d.B.SelectedPair()
